@@ -146,6 +146,9 @@ def disk_scenarios(ctx):
             '/ws/helpers.rego': 'package authz_test.helpers\n\nallow if input.x == 1\n',
             '/ws/x/policy_test.rego': 'package authz.policy_test\n\ntest_allow if true\n',
             '/ws/authz/other/util.rego': 'package authz_test.other\n\nu := 1\n'}},
+        {'name': 'disk-test-suffix-kept-by-configuration', 'rules': ['dpm'], 'mode': 'error', 'no_exclude_test_suffix': True, 'files': {
+            '/ws/authz/policy/policy_test.rego': 'package authz.policy_test\n\ntest_allow if true\n',
+            '/ws/x.rego': 'package a_test.b\n\nu := 1\n'}},
     ]
     pool = ['alpha', 'beta/one', 'gamma', 'delta/x/y', 'eps', 'zeta/inner']
     bodies = ['allow if input.x == %d\n', 'x = %d #c\n', 'r%d  :=  "a=b"\n\ndeny contains m if m := "x"\n',
@@ -161,6 +164,13 @@ def disk_scenarios(ctx):
             files['/ws/%s/f%d.rego' % (d, n)] = 'package %s\n\n%s' % (target.replace('/', '.'), ctx.rng.choice(bodies) % n)
     out.append({'name': 'disk-drawn-rotation-of-%d' % k, 'rules': ALL_RULES, 'mode': ctx.rng.choice(['error', 'rename']), 'files': files})
     return out
+
+
+def config_yaml(no_exclude):
+    """.regal/config.yaml of a workspace handed to the binary"""
+    if no_exclude:
+        return 'rules:\n  idiomatic:\n    directory-package-mismatch:\n      level: error\n      exclude-test-suffix: false\n'
+    return 'rules: {}\n'
 
 
 def tree_of(root):
@@ -189,7 +199,7 @@ def binary_disk_run(regal, workdir, c):
         os.makedirs(os.path.dirname(q), exist_ok=True)
         open(q, 'wb').write(b)
     os.makedirs(os.path.join(root, '.regal'), exist_ok=True)
-    open(os.path.join(root, '.regal', 'config.yaml'), 'w').write('rules: {}\n')
+    open(os.path.join(root, '.regal', 'config.yaml'), 'w').write(config_yaml(c.get('no_exclude_test_suffix')))
     enable = [x for r in c['rules'] for x in ('--enable', LONG[r])]
     fix = [regal, 'fix', '--force', '--disable-all', '--on-conflict', c['mode']] + enable + [root]
     o = {'cmd': fix[1:-1], 'runs': 0}
@@ -287,7 +297,7 @@ def binary_runs(ctx, corpus_sets, cli, report):
             os.makedirs(os.path.dirname(q), exist_ok=True)
             open(q, 'wb').write(b)
         os.makedirs(os.path.join(root, '.regal'), exist_ok=True)
-        open(os.path.join(root, '.regal', 'config.yaml'), 'w').write('rules: {}\n')
+        open(os.path.join(root, '.regal', 'config.yaml'), 'w').write(config_yaml(c.get('no_exclude_test_suffix')))
         cmd = [regal, 'fix', '--force', '--disable-all', '--on-conflict', c['mode']]
         for r in c['rules']:
             cmd += ['--enable', LONG[r]]
@@ -406,7 +416,8 @@ def run(ctx):
     scen = [] if ctx.replay else disk_scenarios(ctx)
     rp = json.load(open(ctx.replay)) if ctx.replay else None
     if rp and rp.get('binary') and 'case' in rp:
-        scen = [{'name': 'replay', 'files': files_plain(rp['case']['files']), 'rules': rp['case']['rules'], 'mode': rp['case']['mode']}]
+        scen = [{'name': 'replay', 'files': files_plain(rp['case']['files']), 'rules': rp['case']['rules'], 'mode': rp['case']['mode'],
+                 'no_exclude_test_suffix': rp['case'].get('no_exclude_test_suffix', False)}]
     disk = {}
 
     def _disk():
@@ -414,7 +425,8 @@ def run(ctx):
             regal = vlib.build_regal(ctx)
             pool = []
             for n, sc in enumerate(scen):
-                c_ = {'files': {p: t.encode('utf-8', 'surrogateescape') for p, t in sc['files'].items()}, 'rules': sc['rules'], 'mode': sc['mode']}
+                c_ = {'files': {p: t.encode('utf-8', 'surrogateescape') for p, t in sc['files'].items()}, 'rules': sc['rules'], 'mode': sc['mode'],
+                      'no_exclude_test_suffix': sc.get('no_exclude_test_suffix', False)}
                 t = threading.Thread(target=lambda n=n, sc=sc, c_=c_: disk.__setitem__(sc['name'], binary_disk_run(regal, os.path.join(ctx.tmp, 'disk_%d' % n), c_)))
                 t.start()
                 pool.append(t)
@@ -514,15 +526,18 @@ def run(ctx):
 
     phase('predicates_and_binary_runs')
     # ---- correspondence: one iteration of the model loop per recorded iteration ---------------------------------
-    E = Enc()
-    iters = []
-    owner = []
-    for c in sets:
+    # the iterations are spread over NS coqc processes (all iterations of a file set in one of them: its oracle table is shared)
+    NS = 3 if ctx.quick() else 6
+    encs = [Enc() for _ in range(NS)]
+    sh_iters = [[] for _ in range(NS)]
+    sh_owner = [[] for _ in range(NS)]
+    for si, c in enumerate(sets):
         if c['err'] in ('itercap', 'deadline', 'renamecap'):
             continue
         tr = c.get('trace') or []
         if len(tr) != c['iters']:
             continue   # trace was cut (long runs): verdict does not depend on it
+        E = encs[si % NS]
         table = table_v(E, c.get('oracle'))
         for k, st in enumerate(tr):
             if st.get('linterr'):
@@ -531,11 +546,23 @@ def run(ctx):
             if last and c['err']:
                 break   # the iteration ended in an error: nothing to compare
             nxt = c['final'] if last else tr[k + 1]['files']
-            iters.append('{| i_files := %s; i_viol := %s; i_next := %s; i_last := %s; i_table := %s; i_rename := %s |}' % (
-                fs_v(E, st['files']), viol_v(E, st.get('viol') or []), fs_v(E, nxt), vlib.cbool(last), table,
+            # hint for the order of the per-file groups (the linter's own order is not observable): files whose content
+            # changed, then the file that went away (a move ends the iteration), then the untouched ones; the Coq side
+            # tries this order first and every permutation of the groups when it fails
+            after = {f['path']: f['content'] for f in nxt}
+            rank = lambda path, before={f['path']: f['content'] for f in st['files']}: (
+                0 if path in after and after[path] != before.get(path) else (1 if path not in after else 2))
+            hinted = sorted(st.get('viol') or [], key=lambda v_: rank(v_['file']))
+            sh_iters[si % NS].append('{| i_files := %s; i_viol := %s; i_next := %s; i_last := %s; i_table := %s; i_rename := %s |}' % (
+                fs_v(E, st['files']), viol_v(E, hinted), fs_v(E, nxt), vlib.cbool(last), table,
                 vlib.cbool(c['mode'] == 'rename')))
-            owner.append((c, k))
+            sh_owner[si % NS].append((c, k))
+    iters = [x for l_ in sh_iters for x in l_]
+    owner = [x for l_ in sh_owner for x in l_]
+    E = encs[0]
     # every handleRename as the file provider saw it vs Model/FixLoop.v rename_loop with C13's rename_candidate
+    # (evaluated by a second coqc beside the first: own string table E2)
+    E2 = Enc()
     rcases, rowner = [], []
     for c in sets:
         if c['err']:
@@ -545,9 +572,9 @@ def run(ctx):
             if not (1 <= it <= len(tr)):
                 continue
             rcases.append('{| r_files := %s; r_rename := %s; r_asked := %s; r_settled := %s |}' % (
-                fs_v(E, tr[it - 1]['files']), vlib.cbool(c['mode'] == 'rename'), clist(E.name(x) for x in asked), vlib.cbool(settled)))
+                fs_v(E2, tr[it - 1]['files']), vlib.cbool(c['mode'] == 'rename'), clist(E2.name(x) for x in asked), vlib.cbool(settled)))
             rowner.append((c, it, frm, asked))
-    dcases = [dpm_case_v(E, d) for d in dpm_ok]
+    dcases = [dpm_case_v(E2, d) for d in dpm_ok]
     # self-test of the comparison: an iteration whose observed successor is perturbed must be flagged
     pert_v = None
     for c in sets:
@@ -560,16 +587,23 @@ def run(ctx):
                 vlib.cbool(c['mode'] == 'rename'))
             break
     head = ['From Coq Require Import Uint63.', 'From Regal Require Import Check.C12Check.', 'Open Scope N_scope.']
-    v = []
     CH = 100
-    chunks = []
-    for k in range(0, len(iters), CH):
-        v.append('Definition iters_%d : list iter_case := %s.' % (k // CH, clist(iters[k:k + CH])))
-        chunks.append('iters_%d' % (k // CH))
-    v.append('Definition iters := %s.' % (' ++ '.join(chunks) if chunks else '(@nil iter_case)'))
-    v.append('Definition R1 := Eval vm_compute in failing iter_agrees 0 iters.')
-    v.append('Definition R2 := Eval vm_compute in failing (fun c => negb (iter_unmodelled c)) 0 iters.')
-    v.append('Definition R3 := %s.' % ('Eval vm_compute in failing iter_agrees 0 [%s]' % pert_v if pert_v else '[0]%nat'))
+    v_shards = []
+    for j in range(NS):
+        v = []
+        chunks = []
+        for k in range(0, len(sh_iters[j]), CH):
+            v.append('Definition iters_%d : list iter_case := %s.' % (k // CH, clist(sh_iters[j][k:k + CH])))
+            chunks.append('iters_%d' % (k // CH))
+        v.append('Definition iters := %s.' % (' ++ '.join(chunks) if chunks else '(@nil iter_case)'))
+        v.append('Definition R1 := Eval vm_compute in failing iter_agrees 0 iters.')
+        v.append('Definition R2 := Eval vm_compute in failing (fun c => negb (iter_unmodelled c)) 0 iters.')
+        if j == 0:
+            v.append('Definition R3 := %s.' % ('Eval vm_compute in failing iter_agrees 0 [%s]' % pert_v if pert_v else '[0]%nat'))
+            v.append('Print R3.')
+        v.append('Print R1. Print R2.')
+        v_shards.append(v)
+    v = []
     for nm, typ, items in (('rcases', 'rename_case', rcases), ('dcases', 'dpm_case', dcases)):
         parts = []
         for k in range(0, len(items), CH):
@@ -583,7 +617,7 @@ def run(ctx):
     if multi:
         c_, it_, _, asked_ = multi[0]
         v.append('Definition R6 := Eval vm_compute in failing rename_agrees 0 [{| r_files := %s; r_rename := true; r_asked := %s; r_settled := true |}].'
-                 % (fs_v(E, c_['trace'][it_ - 1]['files']), clist(E.name(x) for x in asked_[:-1])))
+                 % (fs_v(E2, c_['trace'][it_ - 1]['files']), clist(E2.name(x) for x in asked_[:-1])))
     else:
         v.append('Definition R6 := [0]%nat.')
     moved = [(d, p_) for d in dpm_ok for p_ in d['places'] if p_['fix'] == 'move']
@@ -593,18 +627,35 @@ def run(ctx):
         for q in bad['places']:
             if q['file'] == p_['file']:
                 q['to'] = '/ws/elsewhere/x.rego'
-        v.append('Definition R7 := Eval vm_compute in failing dpm_agrees 0 [%s].' % dpm_case_v(E, bad))
+        v.append('Definition R7 := Eval vm_compute in failing dpm_agrees 0 [%s].' % dpm_case_v(E2, bad))
     else:
         v.append('Definition R7 := [0]%nat.')
-    v.append('Print R1. Print R2. Print R3. Print R4. Print R5. Print R6. Print R7.')
-    rc, cout = vlib.coq_eval(ctx, 'Cases_C12', '\n'.join(head + E.defs + v))   # E.defs last: the self-tests name new strings
-    if rc != 0:
-        raise RuntimeError('case evaluation failed:\n' + cout[-3000:])
+    v.append('Print R4. Print R5. Print R6. Print R7.')
+    # two coqc processes side by side; string tables last: the self-tests name new strings
+    from concurrent.futures import ThreadPoolExecutor
+    def timed_eval(name, text):
+        t_ = time.time()
+        r_ = vlib.coq_eval(ctx, name, text)
+        phases['coq_eval_' + name] = round(time.time() - t_, 1)
+        return r_
+    with ThreadPoolExecutor(NS + 1) as ex:
+        fs_ = [ex.submit(timed_eval, 'Cases_C12_%d' % j, '\n'.join(head + encs[j].defs + v_shards[j])) for j in range(NS)]
+        fb = ex.submit(timed_eval, 'Cases_C12b', '\n'.join(head + E2.defs + v))
+        outs = [f_.result() for f_ in fs_]
+        rcb, coutb = fb.result()
+    for rc_, cout_ in outs + [(rcb, coutb)]:
+        if rc_ != 0:
+            raise RuntimeError('case evaluation failed:\n' + cout_[-3000:])
+    cout = coutb + '\n' + outs[0][1]     # R3..R7
     phase('coq_eval')
-    r1 = vlib.parse_nat_list(cout, 'R1')
-    r2 = vlib.parse_nat_list(cout, 'R2')
-    if r1 is None or r2 is None:
-        raise RuntimeError('could not read the results of the case evaluation:\n' + cout[-2000:])
+    r1, r2, base_ = [], [], 0
+    for j in range(NS):
+        a_, b_ = vlib.parse_nat_list(outs[j][1], 'R1'), vlib.parse_nat_list(outs[j][1], 'R2')
+        if a_ is None or b_ is None:
+            raise RuntimeError('could not read the results of the case evaluation:\n' + outs[j][1][-2000:])
+        r1 += [base_ + x for x in a_]
+        r2 += [base_ + x for x in b_]
+        base_ += len(sh_iters[j])
     if vlib.parse_nat_list(cout, 'R3') != [0]:
         raise RuntimeError('self-test failed: a perturbed successor state was not flagged by Check.C12Check.iter_agrees')
     r4, r5 = vlib.parse_nat_list(cout, 'R4'), vlib.parse_nat_list(cout, 'R5')
